@@ -447,8 +447,14 @@ def main(rep, ws, tier):
                        'the dir < 0 arm is the mirror image of the dir > 0 arm (%s)' % det if same else det, where)
             # ---- guards
             badg = None; ndiv = 0
+            def guard_leaves(act):
+                try:
+                    return [ll for comp in spec[act] for ll in T.leaves(lift_all(comp, [2000000]), 200000)]
+                except OverflowError as e:
+                    rep.ob('%s<%s>#guard-%s' % (fname, E, ''.join('xyz'[q] for q in act)), 'R14.guard', UNDECIDED, 'the specialised form has too many paths to enumerate (%s)' % e, where)
+                    return []
             for act in ((0,), (1,), (2,), (0, 1), (1, 2)):
-                for lits, leaf in [ll for comp in spec[act] for ll in T.leaves(lift_all(comp, [2000000]), 200000)]:
+                for lits, leaf in guard_leaves(act):
                     d = dict(lits)
                     seen = set(); stack = [leaf]
                     while stack:
